@@ -1,5 +1,6 @@
 """C02 - no lost wake-up: a resumed task always runs again."""
 import vlib
+import steptrace
 from vlib import Check
 
 SCHEDULERS = ["local-priority-fifo", "local", "static", "static-priority", "abp-priority-fifo",
@@ -31,6 +32,9 @@ def run():
     for h, o in hist[:2]:
         chk.sample(h[:16])
     vlib.check_histories(chk, "WakeTrace", "WakeTrace.cfg", hist, "c02w", batch=300)
+    # 1b. step-level binding of WakeImpl: the hooked steps on the target's state word, with the observed
+    #     state / tag / CAS outcome, must be WakeImpl's steps (spec/WakeStepTrace.tla)
+    steptrace.check_steps(chk, vlib, wake, 12 * n)
     # 2. the same path underneath the blocking facilities, with the delays moved to the
     #    state-word hooks (resume-before-suspend window widened to hundreds of microseconds)
     env = {"VERIF_PERTURB_SITES": STATEWORD_SITES, "VERIF_PERTURB_MAXUS": "400", "VERIF_PERTURB_PCT": "35"}
@@ -52,7 +56,11 @@ def run():
                        "sas.* so the waker regularly finds the target still active (helper path); (2) the same "
                        "with condition variables and semaphores on top; histories validated by TLC against "
                        "WakeAbs / MutexCvAbs / SemAbs whose quiescence rules forbid a blocked task with an "
-                       "issued wake-up; non-trivial = >=2 wake-ups / contains a wait")
+                       "issued wake-up; non-trivial = >=2 wake-ups / contains a wait; (1b) step level: every hooked "
+                       "load / CAS / store / helper decision on one task's state word, with the values the code "
+                       "observed, is validated by TLC as a behaviour of WakeImpl (each actor at most one step ahead "
+                       "of its record); a trace that instead matches a variant TLC shows to lose a wake-up is a "
+                       "violation, any other mismatch is reported as DRIFT")
     chk.assumptions += ["sequential consistency in the model", "no task busy-yields forever: a wake-up issued from "
                         "a non-pika thread can be starved (not lost) by yield-spinning tasks, because the default "
                         "queue back-end prefers the producer sub-queue with most entries (observed; see DESIGN.md)"]
